@@ -171,8 +171,9 @@ void Server::Impl::onTcpReceived(const TcpServer::ConnToken &ct, Buffer &buff)
                 //! 标记当前请求为close请求
                 conn->close_index = conn->req_index;
                 LogDbg("mark close at %d", conn->close_index);
-
-                tcp_server_.shutdown(ct, SHUT_RD);
+                //! 注意：此处不能 shutdown(SHUT_RD)，否则该 socket 立即可读且 read() 返回 0，
+                //! 会被当成对端已关闭而销毁连接，尚未发送(完)的回复就丢失了。
+                //! 之后再收到的数据在本函数开头被丢弃，连接在最后的回复发送完成后由 onTcpSendCompleted() 断开
             }
 
             auto sp_ctx = make_shared<Context>(wp_parent_, ct, conn->req_index++, req);
